@@ -1,17 +1,72 @@
 (** Property C05 - a GGUF file written by WriteGGUF decodes to the same metadata, tensors and tensor bytes.
-    Theorems only. *)
-From Coq Require Import List NArith ZArith Bool.
-From V Require Import Common.Bytes Gguf.Model.
+    Theorems only (proofs in RoundTripKV.v / RoundTrip.v).
+
+    [write_gguf true block kv ts] is the byte string ggml.WriteGGUF writes (with fixes/C05-offsets.patch) for the
+    key/value map [kv] (a Go map: distinct keys) and the tensors [ts], [block] being Tensor.block (any function: the
+    sort key of the stable sort); [decode bytes maxArr] is ggml.Decode.  All statements hold
+      - for every key/value list over the value types ggufWriteKV supports (wf_wval: numbers within uint32),
+      - every tensor list (any count, names, kinds, shapes - wf_tensor: kind/dimension count within uint32, dimensions
+        within uint64) whose data has Size() bytes ([sized]),
+      - every alignment > 0 (general.alignment, default 32), every maxArraySize,
+      - files shorter than 2^63 bytes (Go's int64 offsets). *)
+From Coq Require Import List NArith ZArith Bool Permutation.
+From V Require Import Common.Bytes Gguf.Model Gguf.Arith Gguf.RoundTripKV Gguf.RoundTrip Gguf.Final.
 Import ListNotations.
 Open Scope N_scope.
 
-(** the three-tensor witness of the offset defect: F32 tensors of 1, 7 and 1 elements, alignment 32 *)
-Definition wit_ts : list tensor :=
-  [mkT [97] 0 [1] [1;2;3;4]; mkT [98] 0 [7] (repeat 170 28); mkT [99] 0 [1] [5;6;7;8]].
+(** [wf_input kv ts] (Final.v): keys distinct, values/kinds/dimensions within their Go types, every tensor's data has
+    Size() bytes, alignment > 0.  [written_order block ts] = the order the stable sort leaves (Final.v). *)
 
-(** the code before fixes/C05-offsets.patch ([fixed = false]) records offset 32 for the third tensor, where the
-    second tensor's bytes are *)
-Theorem C05_orig_offsets_refuted :
-  offsets false 32 0 wit_ts = [0; 32; 32] /\ offsets true 32 0 wit_ts = [0; 32; 64].
-Proof. vm_compute. split; reflexivity. Qed.
-Print Assumptions C05_orig_offsets_refuted.
+(** decoding succeeds, and the decoded map is the written map plus the patched-in parameter count - for every
+    supported value type, empty strings/arrays included; arrays longer than maxArraySize keep their size only ([clip]) *)
+Theorem C05_kv_roundtrip : forall block kv ts maxArr,
+  wf_input kv ts -> small (write_gguf true block kv ts) ->
+  exists d al, decode (write_gguf true block kv ts) maxArr = DOk d al /\
+    forall k, kv_get k (d_kv d) =
+      if eqb_str k k_param_count then Some (VNum 10 (wparams ts))
+      else option_map (fun v => clip (eff_max maxArr) (val_of_wval v)) (kv_get k kv).
+Proof. exact kv_roundtrip. Qed.
+Print Assumptions C05_kv_roundtrip.
+
+(** tensor names, kinds and dimension-reversed shapes, in the writer's order (a permutation of the input) *)
+Theorem C05_tensor_meta_roundtrip : forall block kv ts maxArr,
+  wf_input kv ts -> small (write_gguf true block kv ts) ->
+  exists d al, decode (write_gguf true block kv ts) maxArr = DOk d al /\
+    Permutation ts (written_order block ts) /\
+    map ti_name (d_tensors d) = map t_name (written_order block ts) /\
+    map ti_kind (d_tensors d) = map t_kind (written_order block ts) /\
+    map ti_shape (d_tensors d) = map (fun t => rev (t_shape t)) (written_order block ts).
+Proof. exact tensor_meta_roundtrip. Qed.
+Print Assumptions C05_tensor_meta_roundtrip.
+
+(** for every tensor (position i in the writer's order): the bytes found at Tensors().Offset + tensor.Offset are exactly
+    the bytes written, and that position is a multiple of the alignment *)
+Theorem C05_tensor_bytes_at_offset : forall block kv ts maxArr,
+  wf_input kv ts -> small (write_gguf true block kv ts) ->
+  exists d al, decode (write_gguf true block kv ts) maxArr = DOk d al /\
+    forall i t ti, nth_error (written_order block ts) i = Some t -> nth_error (d_tensors d) i = Some ti ->
+      let at_ := d_toff d + ti_offset ti in
+      firstn (length (t_data t)) (skipn (N.to_nat at_) (write_gguf true block kv ts)) = t_data t /\
+      at_ mod walign kv = 0.
+Proof. exact tensor_bytes_at_offset. Qed.
+Print Assumptions C05_tensor_bytes_at_offset.
+
+(** the end offset reported by the decoder is the file length *)
+Theorem C05_end_offset : forall block kv ts maxArr,
+  wf_input kv ts -> small (write_gguf true block kv ts) ->
+  exists d al, decode (write_gguf true block kv ts) maxArr = DOk d al /\
+    d_end d = Z.of_nat (length (write_gguf true block kv ts)).
+Proof. exact end_offset. Qed.
+Print Assumptions C05_end_offset.
+
+(** non-vacuity of the hypotheses: the three-tensor witness of the offset defect (F32 tensors of 1, 7 and 1 elements,
+    sizes 4, 28, 4 - not multiples of the alignment 8), one block-numbered name, an alignment key and every value type *)
+Example C05_hypotheses_satisfiable : wf_input wit_kv wit_ts /\ small (write_gguf true wit_block wit_kv wit_ts).
+Proof. exact hypotheses_satisfiable. Qed.
+
+(** the code before fixes/C05-offsets.patch ([fixed = false]: s += t.Size()) does NOT have the property
+    ([C05_tensor_bytes_unrepaired_full], Final.v): on the witness [wit3] the third tensor is recorded at data offset 32,
+    where the second tensor's bytes are *)
+Theorem C05_tensor_bytes_unrepaired_refuted : ~ C05_tensor_bytes_unrepaired_full.
+Proof. exact tensor_bytes_unrepaired_refuted. Qed.
+Print Assumptions C05_tensor_bytes_unrepaired_refuted.
